@@ -451,6 +451,10 @@ pub struct Trace {
     pub regs: BTreeMap<i32, Val>,
     /// None = ran to completion; Some(reason) = stopped early
     pub stopped: Option<String>,
+    /// M1 only: number of calls logged when a jump was taken *after* an earlier taken jump whose time argument differed from
+    /// its target's time (an explicit `@ t`).  From then on the machine clock and AstVm's clock follow different rules
+    /// (compiler-generated jumps carry label times, AstVm executes no jump there), so times are compared only before it.
+    pub clock_unreliable_from: Option<usize>,
 }
 
 pub const MAX_ITER: u32 = 400;
@@ -497,7 +501,7 @@ pub fn run_astvm_iter(truth: &mut Truth, stmts: &[truth::Sp<ast::Stmt>], val: &V
     }
     Trace {
         log: vm.instr_log.iter().map(|c| Call { real_time: c.real_time, opcode: c.opcode, args: c.args.iter().map(Val::from_scalar).collect() }).collect(),
-        time: vm.time, real_time: vm.real_time, regs, stopped,
+        time: vm.time, real_time: vm.real_time, regs, stopped, clock_unreliable_from: None,
     }
 }
 
@@ -621,6 +625,8 @@ pub fn run_m1_ex(table: &Table, instrs: &[RawInstr], val: &Valuation, difficulty
     // hidden compare flag: Some(ordering) or None when unordered (NaN)
     let mut cmp_flag: Option<i32> = Some(0);
     let mut stopped = None;
+    let mut off_label_taken = false;
+    let mut clock_unreliable_from: Option<usize> = None;
     let read = |regs: &BTreeMap<i32, Val>, a: &Arg, float: bool| -> Result<Val, String> {
         let v = match a { Arg::Imm(v) => v.clone(), Arg::Reg(r) => regs.get(r).cloned().ok_or_else(|| format!("read of unset register {r}"))?, Arg::Skip => unreachable!() };
         Ok(if float { Val::F(v.as_float()) } else { Val::I(v.as_int()) })
@@ -646,6 +652,8 @@ pub fn run_m1_ex(table: &Table, instrs: &[RawInstr], val: &Valuation, difficulty
         };
         macro_rules! do_jump { () => {{
             let (idx, t) = jump_target(&regs)?;
+            if off_label_taken && clock_unreliable_from.is_none() { clock_unreliable_from = Some(log.len()); }
+            if let Some(t) = t { if idx < instrs.len() && instrs[idx].time != t { off_label_taken = true; } }
             pc = idx;
             match t { Some(t) => time = t, None => { if idx < instrs.len() { time = instrs[idx].time; } } }
             continue;
@@ -709,7 +717,7 @@ pub fn run_m1_ex(table: &Table, instrs: &[RawInstr], val: &Valuation, difficulty
         }
         pc += 1;
     }
-    Ok(Trace { log, time, real_time, regs, stopped })
+    Ok(Trace { log, time, real_time, regs, stopped, clock_unreliable_from })
 }
 
 /// registers that appear anywhere in the emitted instructions (by the harness's own decoding)
@@ -742,7 +750,8 @@ pub fn compare_traces_ex(a: &Trace, b: &Trace, regs_to_compare: &[i32], cmp_time
     for i in 0..n {
         match (a.log.get(i), b.log.get(i)) {
             (Some(x), Some(y)) => {
-                if x.opcode != y.opcode || (cmp_real_time && x.real_time != y.real_time) || x.args.len() != y.args.len() || x.args.iter().zip(&y.args).any(|(p, q)| !p.same(q)) {
+                let times_here = cmp_real_time && a.clock_unreliable_from.map_or(true, |k| i < k) && b.clock_unreliable_from.map_or(true, |k| i < k);
+                if x.opcode != y.opcode || (times_here && x.real_time != y.real_time) || x.args.len() != y.args.len() || x.args.iter().zip(&y.args).any(|(p, q)| !p.same(q)) {
                     return Some(format!("call #{i} differs: {:?} vs {:?}", x, y));
                 }
             },
@@ -750,6 +759,7 @@ pub fn compare_traces_ex(a: &Trace, b: &Trace, regs_to_compare: &[i32], cmp_time
         }
     }
     if !both_done { return None; }
+    let cmp_time = cmp_time && a.clock_unreliable_from.is_none() && b.clock_unreliable_from.is_none();
     if cmp_time && (a.time != b.time) { return Some(format!("final time differs: {} vs {}", a.time, b.time)); }
     if cmp_time && a.real_time != b.real_time { return Some(format!("final real_time differs: {} vs {}", a.real_time, b.real_time)); }
     for &r in regs_to_compare {
